@@ -503,9 +503,22 @@ class Facts:
         self.impls = []
         self.mods = {}
         self.closures_of = defaultdict(list)   # outermost fn def -> [closure Fn]
+        raws = []
         for p in sorted(glob.glob(os.path.join(facts_dir, "*.json"))):
             with open(p) as fh:
-                d = json.load(fh)
+                raws.append(fh.read())
+        # fn-rename tolerance (vlib/renames.py): map renamed fns back to the names the rules were written against
+        self.renamed = []
+        try:
+            from . import renames
+            mapping, notes = renames.compute_map([json.loads(t) for t in raws])
+            if mapping:
+                raws = [renames.apply(t, mapping) for t in raws]
+                self.renamed = notes
+        except Exception as e:      # never let the tolerance layer break a check
+            self.renamed = ["rename tolerance disabled: %s" % e]
+        for t in raws:
+            d = json.loads(t)
             unit = "%s-%s" % (d["crate"], d["crate_type"])
             self.units[unit] = d
             types = [tnorm(t) for t in d["types"]]
